@@ -163,14 +163,17 @@ func (m *vc02m) stageK(k int) {
 		}
 		k := vf.Range("len2", 0, 2)
 		in2 := vc02vals("y", k)
+		// a third operand (possibly after an empty second one)
+		k3 := vf.Range("len3", 0, 1)
+		in3 := vc02vals("z", k3)
 		if vf.Choice("chain", 2) == 0 {
-			m.it = m.it.Join(fun.SliceIterator(in2))
+			m.it = m.it.Join(fun.SliceIterator(in2), fun.SliceIterator(in3))
 			m.shape += ">Join"
 		} else {
-			m.it = Chain(m.it, fun.SliceIterator(in2))
+			m.it = Chain(m.it, fun.SliceIterator(in2), fun.SliceIterator(in3))
 			m.shape += ">Chain"
 		}
-		m.want = append(append([]int(nil), m.want...), in2...)
+		m.want = append(append(append([]int(nil), m.want...), in2...), in3...)
 	case 4: // Uniq: first occurrence of each value
 		m.it = Uniq(m.it)
 		var w []int
@@ -253,11 +256,21 @@ func (m *vc02m) finish(nsinks int) {
 	case 2: // Count
 		vf.Assert(m.it.Count(ctx) == n, "count-differs-from-pure-functions")
 		vf.Reach("count")
-	case 3: // Reduce: fold with +
-		sum, err := m.it.Reduce(func(in, acc int) (int, error) { return acc + in, nil })(ctx)
+	case 3: // Reduce: fold with +; a skipped element is left out of the fold
+		skipAt := vf.Range("reduce-skips", 0, n) // == n: nothing skipped
+		idx := -1
+		sum, err := m.it.Reduce(func(in, acc int) (int, error) {
+			idx++
+			if idx == skipAt {
+				return 0, fun.ErrIteratorSkip
+			}
+			return acc + in, nil
+		})(ctx)
 		want := 0
-		for _, x := range m.want {
-			want += x
+		for i, x := range m.want {
+			if i != skipAt {
+				want += x
+			}
 		}
 		vf.Assert(err == nil, "reduce-failed")
 		vf.Assert(sum == want, "reduce-differs-from-fold")
